@@ -687,7 +687,7 @@ def core(ck, tier, model_ok):
     for c in common.load_corpus(PID):
         run_corpus_case(ck, m, c)
     n_schemas, n_docs = (40, 24) if quick else (400, 60)
-    budget = 40 if quick else 600
+    budget = 40 if quick else 400
     for _ in range(n_schemas):
         if time.time() - t0 > budget:
             ck.count("stopped_on_time_budget")
